@@ -107,10 +107,19 @@ def run_unit(u):
     def bump(k, n=1):
         cn[k] = cn.get(k, 0) + n
 
-    cfg_plain = sels.Cfg(p_id=.08, p_class=.2, p_attr=.2, p_struct=.2, p_more=.3, extra=[(.12, lambda r, d: ('scope',)), (.06, lambda r, d: ('amp',))])
+    pcs = ['checked', 'disabled', 'link', 'default', 'required', 'enabled', 'read-write', 'indeterminate']
+
+    def pc(r, d):
+        return ('pc', r.choice(pcs))
+
+    def pc_ext(ref, e, p):
+        # HTML-only state pseudo-classes: nothing in a document that is XML but not XHTML; otherwise not modelled here
+        return False if not ref.is_html else None
+    ext = {'pc': pc_ext}
+    cfg_plain = sels.Cfg(p_id=.08, p_class=.2, p_attr=.2, p_struct=.2, p_more=.3, extra=[(.12, lambda r, d: ('scope',)), (.06, lambda r, d: ('amp',)), (.1, pc)])
     cfg_ns = sels.Cfg(tag_prefixes=[None, None, 'p1', 'p2', '*', ''], p_tag=.6, p_id=.08, p_class=.2, p_attr=.2, p_struct=.2, p_more=.3,
                       extra=[(.12, lambda r, d: ('scope',)), (.06, lambda r, d: ('amp',)),
-                             (.15, lambda r, d: ('custom', r.choice(['--al', '--nest'])))])
+                             (.15, lambda r, d: ('custom', r.choice(['--al', '--nest']))), (.2, pc)])
     cfg_custom = sels.Cfg(p_id=.08, p_class=.2, p_attr=.2, p_struct=.2, p_more=.3, extra=[(.12, lambda r, d: ('scope',)), (.3, lambda r, d: ('custom', r.choice(['--al', '--nest'])))])
 
     def violation(what, case, ast, text, **kw):
@@ -119,8 +128,9 @@ def run_unit(u):
             res['viol'].append(case.witness(ast, text, what, **kw))
 
     for _ in range(u['n']):
-        root, ws = trees.gen_tree(rng, max_nodes=rng.choice([5, 12, 25]))
         how = rng.choice(['api', 'html.parser', 'lxml', 'html5lib', 'xml', 'api-xml', 'xml', 'api-xml'])
+        root, ws = trees.gen_tree(rng, max_nodes=rng.choice([5, 12, 25]),
+                                  names=trees.NAMES + (['iframe', 'iframe'] if how in ('api', 'html.parser') and rng.random() < .5 else []))
         xmlish = how in ('xml', 'api-xml')
         if xmlish:
             nsify(rng, root)
@@ -160,7 +170,7 @@ def run_unit(u):
             targets = [soup] + [rng.choice(all_els) for _ in range(min(3, len(all_els)))]
             for tgt in targets:
                 tsn = case0.idmap[id(tgt)]
-                ref = refsel.Ref(case0.top_sn, tsn, case0.is_xml, nsmap, custom_ast)
+                ref = refsel.Ref(case0.top_sn, tsn, case0.is_xml, nsmap, custom_ast, ext)
                 Tm, Um = ref.ev_list(ast, top=True)
                 desc = ref.desc(tsn)
                 unspec = any(e in Um for e in desc)
@@ -210,11 +220,11 @@ def run_unit(u):
                         continue
                     top_it = trees.topmost(it)
                     if top_it is case0.top_obj:
-                        r_it = refsel.Ref(case0.top_sn, case0.idmap[id(it)], case0.is_xml, nsmap, custom_ast)
+                        r_it = refsel.Ref(case0.top_sn, case0.idmap[id(it)], case0.is_xml, nsmap, custom_ast, ext)
                         v = r_it.match(ast, case0.idmap[id(it)])
                     else:
                         osn, omap = trees.snapshot(top_it)
-                        r_it = refsel.Ref(osn, omap[id(it)], trees.is_xml_top(top_it), nsmap, custom_ast)
+                        r_it = refsel.Ref(osn, omap[id(it)], trees.is_xml_top(top_it), nsmap, custom_ast, ext)
                         v = r_it.match(ast, omap[id(it)])
                     if v is None:
                         fu = True
@@ -257,6 +267,20 @@ def run_unit(u):
                         base = ('same', base)
                     chk(nm + ' == compile().method', ev2, base, 'one' if nm in ('sv.select_one', 'sv.closest', 'sv.match') else 'list')
 
+                # reference-free: select(t) == [e for e in descendants(t) if match(e)] for :scope-free selectors
+                if 'ret' in e_sel and ':scope' not in text and '&' not in text:
+                    perel = []
+                    okp = True
+                    for el_ in tgt.descendants:
+                        if isinstance(el_, bs4.Tag):
+                            evm = rec.call('c.match', comp.match, el_)
+                            if 'ret' not in evm:
+                                okp = False
+                                break
+                            if evm['ret']:
+                                perel.append(el_)
+                    if okp:
+                        chk('select == [e for e in descendants if match(e)]', e_sel, perel)
                 # --- offline checker over the event log
                 base_ok = 'ret' in e_sel
                 for desc_, ev, expected, kind in checks:
